@@ -1,6 +1,6 @@
 /-
   C07 — model of the functions that face untrusted bytes (src/rtosc.c, after the fixes
-  fixes/C07-*.patch):
+  fixes/C07-*.patch and fixes/C06-bundle-length-wrap.patch):
 
     deref, bundle_ring_length, rtosc_message_ring_length, rtosc_message_length,
     rtosc_valid_message_p.
@@ -111,8 +111,9 @@ def lenLoop (mem : Bytes) (len aligned : Nat) : Nat → Bytes → Nat → Res (O
         lenLoop mem len aligned tp ts pos
     else lenLoop mem len aligned (tp + 1) ts pos
 
-/-- the `do … while(advance)` loop of `bundle_ring_length` (with fix C07-bundle-len);
-    `none` = `return 0` -/
+/-- the `do … while(advance)` loop of `bundle_ring_length` (with fix C07-bundle-len and fix
+    C06-bundle-length-wrap: `(uint64_t)pos+4+advance > UINT32_MAX` is rejected, so `pos` never
+    wraps); `none` = `return 0` -/
 def bundleLoop (mem : Bytes) (len : Nat) : Nat → Nat → Res (Option Nat)
   | 0, _ => .spin
   | f + 1, pos =>
@@ -120,7 +121,7 @@ def bundleLoop (mem : Bytes) (len : Nat) : Nat → Nat → Res (Option Nat)
     else
       (rd32 mem len pos).bind fun a =>
       let advance := a.toNat
-      if advance > len - pos then .ok none
+      if advance > len - pos ∨ (advance ≠ 0 ∧ pos + 4 + advance > 4294967295) then .ok none
       else if advance ≠ 0 then bundleLoop mem len f (u32 (pos + u32 (4 + advance)))
       else .ok (some pos)
 
